@@ -58,6 +58,11 @@ type World struct {
 	cbCalls     int             // callback calls so far
 	faultInCall bool            // a fault was injected during the regulator call in progress
 	bounced     map[string]bool // named in a failed callback and not seen in the queue or at a table since
+	// early re-entry: a player who busts registers again before his table has reported the bust
+	earlyReentry bool
+	forceEarly   bool           // replay: the next sync carries an early re-entry
+	lastAdded    []string       // the names of the last registration call
+	unreported   map[string]int // table id -> eliminations that happened and are not reported yet
 }
 
 type pendingRelease struct {
@@ -347,8 +352,12 @@ func (w *World) check(tag string) {
 			return
 		}
 	}
-	if got := w.r.GetPlayerCount(); got != n {
-		w.fail("C09/player-count", "after="+tag, fmt.Sprintf("regulator counts %d players, %d are alive", got, n))
+	late := 0
+	for _, k := range w.unreported {
+		late += k
+	}
+	if got := w.r.GetPlayerCount(); got != n+late {
+		w.fail("C09/player-count", "after="+tag, fmt.Sprintf("regulator counts %d players, %d are alive (and %d eliminations are not reported yet)", got, n, late))
 		return
 	}
 	if got := w.r.GetTableCount(); got != len(w.tables) {
@@ -361,8 +370,8 @@ func (w *World) check(tag string) {
 			w.fail("C09/table-unknown-to-regulator", "after="+tag, "table "+id)
 			return
 		}
-		if t.PlayerCount != len(m) {
-			w.fail("C09/table-player-count", "after="+tag, fmt.Sprintf("regulator counts %d players at %s, %d sit there", t.PlayerCount, id, len(m)))
+		if t.PlayerCount != len(m)+w.unreported[id] {
+			w.fail("C09/table-player-count", "after="+tag, fmt.Sprintf("regulator counts %d players at %s, %d sit there (%d eliminations not reported yet)", t.PlayerCount, id, len(m), w.unreported[id]))
 			return
 		}
 	}
@@ -428,6 +437,7 @@ func (w *World) add(n int) {
 	}
 	w.nAlive += n
 	w.initialAlloc = w.status != 0 && w.nextT == 0
+	w.lastAdded = append(w.lastAdded[:0], ps...)
 	w.faultInCall = false
 	err := w.r.AddPlayers(w.callerBuffer(ps))
 	w.reuseBuffer()
@@ -489,16 +499,59 @@ func (w *World) sync(id string, out int) bool {
 	if out > len(m) {
 		out = len(m)
 	}
+	early := out > 0 && w.status != 2 && (w.forceEarly || w.earlyReentry && w.rng.Intn(3) == 0)
+	w.forceEarly = false
+	var justBusted []string
 	for i := 0; i < out; i++ {
 		k := w.rng.Intn(len(m))
+		if early && i == 0 {
+			// the newcomer busts first: the last registrant, when he sits here
+			for j, q := range m {
+				if hasStr(w.lastAdded, q) {
+					k = j
+				}
+			}
+		}
 		p := m[k]
 		m = append(m[:k:k], m[k+1:]...)
 		w.alive[p] = false
 		w.where[p] = ""
 		w.nAlive--
 		w.busted = append(w.busted, p)
+		justBusted = append(justBusted, p)
 	}
 	w.tables[id] = m
+	if early {
+		// the player who just busted buys in again at the desk before the table's report has gone out
+		p := justBusted[0]
+		w.trace = append(w.trace, fmt.Sprintf("bust-and-re-enter(%s,%d)", id, out))
+		w.rep.Inc("class_re_entry_before_the_bust_is_reported")
+		if w.unreported == nil {
+			w.unreported = map[string]int{}
+		}
+		w.unreported[id] = out
+		for i, q := range w.busted {
+			if q == p {
+				w.busted = append(w.busted[:i:i], w.busted[i+1:]...)
+				break
+			}
+		}
+		w.alive[p] = true
+		w.nAlive++
+		w.lastAdded = append(w.lastAdded[:0], p)
+		w.faultInCall = false
+		err := w.r.AddPlayers(w.callerBuffer([]string{p}))
+		w.reuseBuffer()
+		if err != nil && w.on("C09") && !w.faultInCall {
+			w.fail("C09/registration-refused", "op=add", err.Error())
+		}
+		w.check("add")
+		m = w.tables[id]
+		delete(w.unreported, id)
+		if w.failed {
+			return false
+		}
+	}
 	w.trace = append(w.trace, fmt.Sprintf("sync(%s,%d)", id, out))
 	w.rep.Inc("world_steps")
 	w.rep.Inc("syncs")
@@ -665,6 +718,7 @@ func runWorldHistory(w *World, r *rand.Rand, withSweep bool) {
 	}()
 	w.rep.Inc("histories")
 	w.delayReleases = r.Intn(3) == 0
+	w.earlyReentry = r.Intn(3) == 0
 	steps := 3 + r.Intn(58)
 	for s := 0; s < steps && !w.failed; s++ {
 		if len(w.pending) > 0 {
@@ -820,6 +874,7 @@ func runWorldTournament(w *World, r *rand.Rand) {
 	w.rep.Inc("histories")
 	w.rep.Inc("long_tournaments")
 	w.delayReleases = r.Intn(3) == 0
+	w.earlyReentry = r.Intn(3) == 0
 	w.add(1 + r.Intn(300))
 	w.setStatus(1)
 	for k := 0; k < 5 && !w.failed; k++ {
@@ -900,6 +955,8 @@ func replayWorld(w *World, history string) {
 			var k int
 			fmt.Sscan(f[6:], &k)
 			w.setStatus(k)
+		case strings.HasPrefix(f, "bust-and-re-enter("):
+			w.forceEarly = true
 		case f == "sync(nope)":
 			w.unknownTable()
 		case strings.HasPrefix(f, "sync("):
